@@ -2,6 +2,8 @@
 
 package sftp
 
+import "context"
+
 
 //verif:constoverride (*github.com/pkg/sftp.packetManager).workerChan 8 2
 
@@ -57,6 +59,49 @@ func vh_C14_read_read_close() {
 	if len(resp) == 3 {
 		vAssert(resp[0][4] == sshFxpData && resp[1][4] == sshFxpData, "both reads return data")
 		vAssert(vRespID(resp[2]) == ids[2], "the CLOSE completes last")
+	}
+}
+
+// the request server: the handler object behind a write-only or read-write
+// handle is closed only after the transfers sent before the CLOSE are done with
+// it. The maximum payload is scaled to 1 so that a two-byte WRITE is "larger
+// than the maximum payload" (added after seeded change C14-e)
+func vh_C14_reqserver_close() {
+	vErrKinds, vHErrKinds = 0, 0
+	vHReset()
+	ids := vIDs(3)
+	rs := vNewRequestServer(Handlers{vH{}, vHOpenFile{}, vH{}, vH{}}, "/")
+	rs.maxTxPacket = 1
+	f := &vMFile{name: "/o", data: []byte{0, 0, 0, 0}, yield: true}
+	req := &Request{Filepath: "/o", handle: "1"}
+	req.ctx, req.cancelCtx = context.WithCancel(context.Background())
+	rw := vThorough() && vNondetBool() // (quick tier: the write-only handle)
+	var second requestPacket
+	if rw {
+		req.Method, req.writerAtReaderAt = "Open", vHFile{f}
+		second = &sshFxpReadPacket{ID: ids[1], Handle: "1", Offset: 3, Len: 1}
+	} else {
+		req.Method, req.writerAt = "Put", vHFile{f}
+		second = &sshFxpWritePacket{ID: ids[1], Handle: "1", Offset: 3, Length: 1, Data: []byte{7}}
+	}
+	rs.openRequests["1"] = req
+	rs.handleCount = 1
+	resp := vRSPipeline(rs, []requestPacket{
+		&sshFxpWritePacket{ID: ids[0], Handle: "1", Offset: 0, Length: 2, Data: []byte{9, 8}},
+		second,
+		&sshFxpClosePacket{ID: ids[2], Handle: "1"},
+	})
+	vAssert(f.closed == 1, "handler object closed exactly once")
+	vAssert(f.inAtClose == 0, "no read or write in flight when Close runs")
+	vAssert(f.afterClose == 0, "no read or write after Close")
+	vAssert(f.data[0] == 9 && f.data[1] == 8, "the write took effect")
+	vAssert(len(resp) == 3, "three responses")
+	if len(resp) == 3 {
+		vAssert(vRespID(resp[2]) == ids[2], "the CLOSE completes last")
+		for _, b := range resp {
+			c, isS := vStatusCode(b)
+			vAssert(b[4] == sshFxpData || (isS && c == sshFxOk), "every request succeeds")
+		}
 	}
 }
 
